@@ -60,14 +60,22 @@ package hashprefix
 //@ func (*internal.ResultModifiedResponse).Clone
 //@   modifies heap
 //@   ensures clone != nil && clone != m
+// builtFor[x]: the request a rewritten response was made a reply to
+// (CloneForReq sets the reply's ID, question and header bits from it).
+//@ ghost builtFor map[int]int
 //@ func (*internal.ResultModifiedResponse).CloneForReq
-//@   modifies heap
-//@   ensures clone != nil && clone != m
+//@   modifies heap, builtFor
+//@   ensures clone != nil && clone != m && builtFor[clone] == req && (forall x int :: x != clone ==> builtFor[x] == old(builtFor[x]))
+// A cached rewritten response is handed out as a copy of the client's own that
+// is a reply to THIS request - its question and header bits are the
+// requester's, not those of whoever filled the cache (C12: the cache is
+// invisible).
 //@ func (*Filter).clonedResult
-//@   property C07
+//@   property C07 C12
 //@   requires f != nil && okRes(r)
-//@   modifies heap
+//@   modifies heap, builtFor
 //@   ensures the-client-gets-its-own-copy: r == nil ? clone == nil : ref(clone) != 0 && ref(clone) != ref(r)
+//@   ensures a-cached-answer-is-rebuilt-for-this-request: isptr(r, internal.ResultModifiedResponse) ==> builtFor[ref(clone)] == req
 
 //@ func (*Filter).itemFromCache
 //@   property C12
@@ -89,7 +97,7 @@ package hashprefix
 //@ func (*Filter).FilterRequest
 //@   property C12
 //@   requires f != nil && f.resCacheMu != nil && f.logger != nil && f.hashes != nil && ref(f.resCache) != 0 && req != nil
-//@   modifies heap, cgetCache, cgetKey, hst, ipBytes, achas, acval, itemVer, cacheVer, lastVerdictVer
+//@   modifies heap, cgetCache, cgetKey, hst, ipBytes, achas, acval, itemVer, cacheVer, lastVerdictVer, builtFor
 //@   atcall clonedResult set lastVerdictVer = itemVer[item]
 //@   atcall Matches set lastVerdictVer = hsVer[f.hashes]
 //@   atcall Set set itemVer[arg2] = hsVer[f.hashes]
